@@ -186,6 +186,25 @@ def version_records(tier, rng):
                         return False
                 node_obs = "2.0" if ok(47, "text") else "1.5" if ok(40, "ff0000") else "1.4" if ok(24, "y") else "none"
             V.append(["node", valid, maj, mnr, node_obs, repr(text)])
+        # a node already known with a newer version gets this version assigned: the rule applies to the new value alone
+        g = mysensors.BaseSyncGateway(RecTransport(), protocol_version="2.2")
+        try:
+            g.logic("1;255;0;0;17;2.1\n")
+            g.logic("1;0;0;0;23;custom\n")
+            g.logic("1;0;1;0;24;x\n")
+            g.sensors[1].protocol_version = text
+            g.logic("1;255;3;0;32;500\n")
+
+            def ok2(t, v):
+                try:
+                    g.set_child_value(1, 0, t, v)
+                    return True
+                except Exception:  # pylint: disable=broad-except
+                    return False
+            attr_obs = "2.0" if ok2(47, "text") else "1.5" if ok2(40, "ff0000") else "1.4" if ok2(24, "y") else "none"
+        except Exception as exc:  # pylint: disable=broad-except
+            attr_obs = "raised:" + type(exc).__name__
+        V.append(["nodeattr", valid, maj, mnr, attr_obs, repr(text)])
     return V
 
 
